@@ -20,9 +20,15 @@ def eraseStash : FnM.Stash → FnM.Stash
   | .dcl outer ps => .dcl outer (ps.map fun kp => (kp.1, eraseP kp.2))
   | .fn outer ps ar => .fn outer (ps.map fun kp => (kp.1, eraseP kp.2)) ar
 
-/-- same heap, same scopes, the same stashes up to the values bound in declarative stashes (the host log is free) -/
+/-- the value of a property is forgotten – except for `name`, which says what an Error object is (ErrWF) -/
+def eraseV (k : String) (p : FnM.Pty) : FnM.Pty := if k = "name" then p else { p with value := .undef }
+
+def eraseObj (o : FnM.Obj) : FnM.Obj := { o with props := o.props.map fun kp => (kp.1, eraseV kp.1 kp.2) }
+
+/-- same objects up to the values of their properties (names, order, attributes, class, prototype and internal value
+    are the same), same scopes, the same stashes up to the values bound in declarative stashes; the host log is free -/
 structure Shape (σ σ' : FnM.St) : Prop where
-  heap : σ'.heap = σ.heap
+  heap : σ'.heap.map eraseObj = σ.heap.map eraseObj
   scopes : σ'.scopes = σ.scopes
   stashes : σ'.stashes.map eraseStash = σ.stashes.map eraseStash
 
@@ -32,8 +38,83 @@ theorem Shape.trans {σ σ' σ'' : FnM.St} (h : Shape σ σ') (h' : Shape σ' σ
   ⟨h'.heap.trans h.heap, h'.scopes.trans h.scopes, h'.stashes.trans h.stashes⟩
 theorem Shape.trace (σ : FnM.St) (t : List String) : Shape σ { σ with trace := t } := ⟨rfl, rfl, rfl⟩
 
-theorem Shape.obj {σ σ' : FnM.St} (h : Shape σ σ') (a : Nat) : σ'.obj? a = σ.obj? a := by
-  simp only [FnM.St.obj?, h.heap]
+theorem Shape.hlen {σ σ' : FnM.St} (h : Shape σ σ') : σ'.heap.length = σ.heap.length := by
+  have := congrArg List.length h.heap
+  simpa using this
+
+theorem Shape.objE {σ σ' : FnM.St} (h : Shape σ σ') (a : Nat) : (σ'.obj? a).map eraseObj = (σ.obj? a).map eraseObj := by
+  have := congrArg (fun l => l[a]?) h.heap
+  simpa [FnM.St.obj?] using this
+
+theorem Shape.obj_some {σ σ' : FnM.St} (h : Shape σ σ') (a : Nat) (o : FnM.Obj) (ho : σ.obj? a = some o) :
+    ∃ o', σ'.obj? a = some o' ∧ eraseObj o' = eraseObj o := by
+  have := h.objE a
+  rw [ho] at this
+  cases h' : σ'.obj? a with
+  | none => rw [h'] at this; simp at this
+  | some o' => rw [h'] at this; simp only [Option.map_some, Option.some.injEq] at this; exact ⟨o', rfl, this⟩
+
+theorem Shape.obj_none {σ σ' : FnM.St} (h : Shape σ σ') (a : Nat) (ho : σ.obj? a = none) : σ'.obj? a = none := by
+  have := h.objE a
+  rw [ho] at this
+  cases h' : σ'.obj? a with
+  | none => rfl
+  | some o' => rw [h'] at this; simp at this
+
+theorem erase_val {o o' : FnM.Obj} (h : eraseObj o' = eraseObj o) : o'.val = o.val := by
+  have := congrArg FnM.Obj.val h; exact this
+theorem erase_proto {o o' : FnM.Obj} (h : eraseObj o' = eraseObj o) : o'.proto = o.proto := by
+  have := congrArg FnM.Obj.proto h; exact this
+theorem erase_cls {o o' : FnM.Obj} (h : eraseObj o' = eraseObj o) : o'.cls = o.cls := by
+  have := congrArg FnM.Obj.cls h; exact this
+
+theorem lookupA_mapk {β γ : Type} (f : String → β → γ) (x : String) :
+    ∀ l : List (String × β), Fn.lookupA x (l.map fun kp => (kp.1, f kp.1 kp.2)) = (Fn.lookupA x l).map (f x) := by
+  intro l
+  induction l with
+  | nil => rfl
+  | cons p r ih =>
+    obtain ⟨k, v⟩ := p
+    by_cases hk : k = x
+    · subst hk; simp [Fn.lookupA]
+    · simp [Fn.lookupA, hk, ih]
+
+theorem erase_lookup {o o' : FnM.Obj} (h : eraseObj o' = eraseObj o) (x : String) :
+    (Fn.lookupA x o'.props).map (eraseV x) = (Fn.lookupA x o.props).map (eraseV x) := by
+  have := congrArg FnM.Obj.props h
+  simp only [eraseObj] at this
+  rw [← lookupA_mapk eraseV x, ← lookupA_mapk eraseV x, this]
+
+/-- a property found in o is found in o', with the same attributes -/
+theorem erase_lookup_some {o o' : FnM.Obj} (h : eraseObj o' = eraseObj o) (x : String) (p : FnM.Pty)
+    (hl : Fn.lookupA x o.props = some p) :
+    ∃ p', Fn.lookupA x o'.props = some p' ∧ p'.w = p.w ∧ p'.e = p.e ∧ p'.c = p.c := by
+  have := erase_lookup h x
+  rw [hl] at this
+  cases h' : Fn.lookupA x o'.props with
+  | none => rw [h'] at this; simp at this
+  | some p' =>
+    rw [h'] at this
+    simp only [Option.map_some, Option.some.injEq, eraseV] at this
+    refine ⟨p', rfl, ?_⟩
+    by_cases hn : x = "name"
+    · simp only [hn, if_true] at this; subst this; exact ⟨rfl, rfl, rfl⟩
+    · simp only [hn, if_false, FnM.Pty.mk.injEq, true_and] at this; exact this
+
+theorem erase_lookup_none {o o' : FnM.Obj} (h : eraseObj o' = eraseObj o) (x : String)
+    (hl : Fn.lookupA x o.props = none) : Fn.lookupA x o'.props = none := by
+  have := erase_lookup h x
+  rw [hl] at this
+  cases h' : Fn.lookupA x o'.props with
+  | none => rfl
+  | some p' => rw [h'] at this; simp at this
+
+theorem erase_lookup_name {o o' : FnM.Obj} (h : eraseObj o' = eraseObj o) :
+    Fn.lookupA "name" o'.props = Fn.lookupA "name" o.props := by
+  have := erase_lookup h "name"
+  cases h1 : Fn.lookupA "name" o.props <;> cases h2 : Fn.lookupA "name" o'.props <;>
+    simp only [h1, h2, Option.map_some, Option.map_none, eraseV, if_true, Option.some.injEq, reduceCtorEq] at this ⊢
+  exact this
 
 theorem Shape.len {σ σ' : FnM.St} (h : Shape σ σ') : σ'.stashes.length = σ.stashes.length := by
   have := congrArg List.length h.stashes
@@ -85,29 +166,62 @@ theorem Shape.lookup_some {σ σ' : FnM.St} (h : Shape σ σ') (j : Nat) (x : St
 
 /-! ## what depends on the shape only -/
 
-theorem hasProp_heap (s s' : Fn.St) (h : s'.heap = s.heap) (x : String) :
-    ∀ (n a : Nat), Fn.hasProp s' n a x = Fn.hasProp s n a x := by
+theorem lookupA_filter_neg {β : Type} (q : String → Bool) (x : String) (hx : q x = false) :
+    ∀ l : List (String × β), Fn.lookupA x (l.filter fun p => q p.1) = none := by
+  intro l
+  induction l with
+  | nil => rfl
+  | cons p r ih =>
+    obtain ⟨k, v⟩ := p
+    simp only [List.filter_cons]
+    by_cases hk : k = x
+    · subst hk; simp [hx, ih]
+    · cases hq : q k <;> simp [hq, Fn.lookupA, hk, ih]
+
+/-- whether the abstraction of an object has an own property is a matter of its shape -/
+theorem absHas_erase {o o' : FnM.Obj} (h : eraseObj o' = eraseObj o) (x : String) :
+    (Fn.lookupA x (absObj o').props).isSome = (Fn.lookupA x (absObj o).props).isSome := by
+  simp only [absObj, absProps]
+  rw [lookupA_map (fun p : FnM.Pty => p.value), lookupA_map (fun p : FnM.Pty => p.value), erase_val h]
+  cases hh : hidden o.val x with
+  | true =>
+    rw [lookupA_filter_neg (fun k => !hidden o.val k) x (by simp [hh]), lookupA_filter_neg (fun k => !hidden o.val k) x (by simp [hh])]
+  | false =>
+    rw [lookupA_filter (fun k => !hidden o.val k) x (by simp [hh]), lookupA_filter (fun k => !hidden o.val k) x (by simp [hh])]
+    have := congrArg Option.isSome (erase_lookup h x)
+    simpa using this
+
+theorem Shape.hasProp {σ σ' : FnM.St} (h : Shape σ σ') (x : String) :
+    ∀ (n a : Nat), Fn.hasProp (absSt σ') n a x = Fn.hasProp (absSt σ) n a x := by
   intro n
   induction n with
   | zero => intro a; rfl
   | succ n ih =>
     intro a
-    have ho : s'.obj? a = s.obj? a := by simp only [Fn.St.obj?, h]
-    simp only [Fn.hasProp, ho]
-    cases s.obj? a with
-    | none => rfl
+    simp only [Fn.hasProp, absSt_obj]
+    cases ho : σ.obj? a with
+    | none => rw [h.obj_none a ho]; rfl
     | some o =>
-      simp only []
-      cases Fn.lookupA x o.props with
-      | some _ => rfl
+      obtain ⟨o', ho', he⟩ := h.obj_some a o ho
+      rw [ho']
+      simp only [Option.map_some]
+      have hs := absHas_erase he x
+      have hp : (absObj o').proto = (absObj o).proto := erase_proto he
+      cases h1 : Fn.lookupA x (absObj o).props with
+      | some v =>
+        rw [h1] at hs
+        cases h2 : Fn.lookupA x (absObj o').props with
+        | some v' => rfl
+        | none => rw [h2] at hs; simp at hs
       | none =>
-        simp only []
-        cases o.proto with
-        | none => rfl
-        | some q => exact ih q
-
-theorem Shape.absHeap {σ σ' : FnM.St} (h : Shape σ σ') : (absSt σ').heap = (absSt σ).heap := by
-  simp only [absSt, h.heap]
+        rw [h1] at hs
+        cases h2 : Fn.lookupA x (absObj o').props with
+        | some v' => rw [h2] at hs; simp at hs
+        | none =>
+          simp only [hp]
+          cases (absObj o).proto with
+          | none => rfl
+          | some q => exact ih q
 
 /-- what §10.2.2.1 looks at in an environment record: its kind, its outer record, whether it has the name -/
 theorem Shape.envView {σ σ' : FnM.St} (h : Shape σ σ') (i : Nat) (x : String) :
@@ -151,8 +265,8 @@ theorem Shape.envResolve {σ σ' : FnM.St} (h : Shape σ σ') (x : String) :
   | zero => intro i; rfl
   | succ n ih =>
     intro i
-    have hhp := hasProp_heap (absSt σ) (absSt σ') h.absHeap x
-    have hlen : (absSt σ').heap.length = (absSt σ).heap.length := by rw [h.absHeap]
+    have hhp := h.hasProp x
+    have hlen : (absSt σ').heap.length = (absSt σ).heap.length := by simp [h.hlen]
     simp only [Fn.envResolve, hlen, hhp]
     by_cases hi : i = 0
     · simp [hi]
@@ -179,35 +293,38 @@ theorem Shape.envResolve {σ σ' : FnM.St} (h : Shape σ σ') (x : String) :
 
 /-! ## the invariants are invariants of the shape -/
 
-theorem ownP_shape {σ σ' : FnM.St} (h : Shape σ σ') (a : Nat) (x : String)
-    (hna : ∀ o, σ.obj? a = some o → ∀ ipn st, o.val ≠ .arguments ipn st) : ownP σ' a x = ownP σ a x := by
+theorem ownP_name_shape {σ σ' : FnM.St} (h : Shape σ σ') (a : Nat)
+    (hna : ∀ o, σ.obj? a = some o → ∀ ipn st, o.val ≠ .arguments ipn st) : ownP σ' a "name" = ownP σ a "name" := by
   unfold ownP
-  rw [h.obj a]
   cases ho : σ.obj? a with
-  | none => rfl
+  | none => rw [h.obj_none a ho]
   | some o =>
-    simp only []
+    obtain ⟨o', ho', he⟩ := h.obj_some a o ho
+    rw [ho']
+    simp only [erase_lookup_name he, erase_val he]
     cases hv : o.val with
     | arguments ipn st => exact absurd hv (hna o ho ipn st)
     | _ => rfl
 
-theorem getPropertyP_shape {σ σ' : FnM.St} (h : Shape σ σ') (hnp : NoArgsProto σ) (x : String) :
+theorem getPropertyP_name_shape {σ σ' : FnM.St} (h : Shape σ σ') (hnp : NoArgsProto σ) :
     ∀ (n a : Nat), (∀ o, σ.obj? a = some o → ∀ ipn st, o.val ≠ .arguments ipn st) →
-      getPropertyP σ' n a x = getPropertyP σ n a x := by
+      getPropertyP σ' n a "name" = getPropertyP σ n a "name" := by
   intro n
   induction n with
   | zero => intro a _; rfl
   | succ n ih =>
     intro a hna
-    simp only [getPropertyP, ownP_shape h a x hna, h.obj a]
-    cases ownP σ a x with
+    simp only [getPropertyP, ownP_name_shape h a hna]
+    cases ownP σ a "name" with
     | some p => rfl
     | none =>
       simp only []
       cases ho : σ.obj? a with
-      | none => rfl
+      | none => rw [h.obj_none a ho]
       | some o =>
-        simp only []
+        obtain ⟨o', ho', he⟩ := h.obj_some a o ho
+        rw [ho']
+        simp only [erase_proto he]
         cases hq : o.proto with
         | none => rfl
         | some q =>
@@ -216,8 +333,9 @@ theorem getPropertyP_shape {σ σ' : FnM.St} (h : Shape σ σ') (hnp : NoArgsPro
 
 theorem ROInv.shape {σ σ' : FnM.St} {xs : List String} (hI : ROInv σ xs) (h : Shape σ σ') : ROInv σ' xs := by
   refine ⟨?_, ?_, ?_, ?_, ?_, ?_, ?_⟩
-  · intro x hx a o ho
-    rw [h.obj a] at ho
+  · intro x hx a o' ho'
+    obtain ⟨o, ho, he⟩ := h.symm.obj_some a o' ho'
+    rw [← erase_val he]
     exact hI.vis x hx a o ho
   · -- WF0
     have hs := h.stash 0
@@ -232,39 +350,42 @@ theorem ROInv.shape {σ σ' : FnM.St} {xs : List String} (hI : ROInv σ xs) (h :
       cases s' <;> simp only [eraseStash, FnM.Stash.obj.injEq, reduceCtorEq] at hs
       obtain ⟨rfl, rfl⟩ := hs
       rfl
-  · intro a o q oq ho hq hoq
-    rw [h.obj a] at ho
-    rw [h.obj q] at hoq
-    exact hI.nap a o q oq ho hq hoq
-  · intro a o ipn st ho hv
-    rw [h.obj a] at ho
-    obtain ⟨hst, hall⟩ := hI.aw a o ipn st ho hv
+  · intro a o' q oq' ho' hq hoq'
+    obtain ⟨o, ho, he⟩ := h.symm.obj_some a o' ho'
+    obtain ⟨oq, hoq, heq⟩ := h.symm.obj_some q oq' hoq'
+    rw [← erase_val heq]
+    exact hI.nap a o q oq ho (by rw [erase_proto he]; exact hq) hoq
+  · intro a o' ipn st ho' hv
+    obtain ⟨o, ho, he⟩ := h.symm.obj_some a o' ho'
+    obtain ⟨hst, hall⟩ := hI.aw a o ipn st ho (by rw [erase_val he]; exact hv)
     refine ⟨hst, ?_⟩
     intro i pn hpn hne
     obtain ⟨p, hl, hm⟩ := hall i pn hpn hne
     obtain ⟨p', hl', hm', _, _⟩ := h.lookup_some st pn p hl
     exact ⟨p', hl', by rw [hm', hm]⟩
-  · intro a o n ho hv
-    rw [h.obj a] at ho
+  · intro a o' n ho' hv'
+    obtain ⟨o, ho, he⟩ := h.symm.obj_some a o' ho'
+    have hv : o.val = .error n := by rw [erase_val he]; exact hv'
     have := hI.ew a o n ho hv
-    have hna : ∀ o', σ.obj? a = some o' → ∀ ipn st, o'.val ≠ .arguments ipn st := by
-      intro o' ho' ipn st hv'
-      rw [ho] at ho'; cases ho'
-      rw [hv] at hv'; cases hv'
+    have hna : ∀ o1, σ.obj? a = some o1 → ∀ ipn st, o1.val ≠ .arguments ipn st := by
+      intro o1 ho1 ipn st hv1
+      rw [ho] at ho1; cases ho1
+      rw [hv] at hv1; cases hv1
     unfold getP at this ⊢
-    rw [h.obj a, ho] at ⊢
+    rw [ho'] at ⊢
     rw [ho] at this
-    have hm' : mapGetP σ' o "name" = none := by simp [mapGetP, hv]
+    have hm' : mapGetP σ' o' "name" = none := by simp [mapGetP, hv']
     have hm : mapGetP σ o "name" = none := by simp [mapGetP, hv]
     simp only [hm] at this
-    simp only [hm', h.heap, getPropertyP_shape h hI.nap "name" _ a hna]
+    simp only [hm', h.hlen, getPropertyP_name_shape h hI.nap _ a hna]
     exact this
   · intro j x p hl
     obtain ⟨p', hl', hm', hr', _⟩ := h.symm.lookup_some j x p hl
     rw [← hm', ← hr']
     exact hI.sr j x p' hl'
-  · intro a o ho
-    rw [h.obj a] at ho
+  · intro a o' ho'
+    obtain ⟨o, ho, he⟩ := h.symm.obj_some a o' ho'
+    rw [← erase_val he, ← erase_cls he]
     exact hI.cls a o ho
 
 theorem StashNodup.shape {σ σ' : FnM.St} (hn : StashNodup σ) (h : Shape σ σ') : StashNodup σ' := by
@@ -276,18 +397,55 @@ theorem StashNodup.shape {σ σ' : FnM.St} (hn : StashNodup σ) (h : Shape σ σ
   rw [h1, h.dclProps j, ← h2]
   exact hn j
 
+theorem WritableWF.shape {σ σ' : FnM.St} (hw : WritableWF σ) (h : Shape σ σ') : WritableWF σ' := by
+  intro a o' k p' ho' hl' hh'
+  obtain ⟨o, ho, he⟩ := h.symm.obj_some a o' ho'
+  obtain ⟨p, hl, hpw, _, _⟩ := erase_lookup_some he k p' hl'
+  rw [← hpw, ← erase_val he]
+  exact hw a o k p ho hl (by rw [erase_val he]; exact hh')
+
+theorem ProtoDesc.shape {σ σ' : FnM.St} (hd : ProtoDesc σ) (h : Shape σ σ') : ProtoDesc σ' := by
+  intro a o' q ho' hq
+  obtain ⟨o, ho, he⟩ := h.symm.obj_some a o' ho'
+  exact hd a o q ho (by rw [erase_proto he]; exact hq)
+
+theorem Shape.stash_obj {σ σ' : FnM.St} (h : Shape σ σ') (j : Nat) (outer : Option Nat) (o : Nat)
+    (hs : σ.stash? j = some (.obj outer o)) : σ'.stash? j = some (.obj outer o) := by
+  have := h.stash j
+  rw [hs] at this
+  cases h2 : σ'.stash? j with
+  | none => rw [h2] at this; simp at this
+  | some s' =>
+    rw [h2] at this
+    simp only [Option.map_some, Option.some.injEq] at this
+    cases s' <;> simp only [eraseStash, FnM.Stash.obj.injEq, reduceCtorEq] at this
+    obtain ⟨rfl, rfl⟩ := this
+    rfl
+
 /-! ## the simulation relation -/
 
-/-- the identifier `y` resolves, from the scope's lexical stash, to a declarative stash (not the global one) -/
+/-- the identifier `y` resolves, from the scope's lexical stash, to a binding that EXISTS and whose update keeps the
+    shape: a binding of a declarative stash (not the global one), or an own property of the object of an object stash
+    (a global variable, a property of a `with` object) that is neither an arguments nor a String object; and it is
+    not `name` (whose value on Error objects is part of the shape) -/
 def Assignable (σ : FnM.St) (sc : FnM.Scope) (y : String) : Prop :=
-  ∃ j p, Fn.envResolve (absSt σ) (σ.stashes.length + 1) sc.lexical y = some j ∧ j ≠ 0 ∧
-    Fn.lookupA y (FnM.dclProps σ j) = some p
+  y ≠ "name" ∧ ∃ j, Fn.envResolve (absSt σ) (σ.stashes.length + 1) sc.lexical y = some j ∧
+    ((j ≠ 0 ∧ ∃ p, Fn.lookupA y (FnM.dclProps σ j) = some p) ∨
+     (∃ outer o ob p, σ.stash? j = some (.obj outer o) ∧ σ.obj? o = some ob ∧ Fn.lookupA y ob.props = some p ∧
+        (∀ ipn st, ob.val ≠ .arguments ipn st) ∧ (∀ s, ob.val ≠ .string s)))
 
 theorem Assignable.shape {σ σ' : FnM.St} {sc : FnM.Scope} {y : String} (ha : Assignable σ sc y) (h : Shape σ σ') :
     Assignable σ' sc y := by
-  obtain ⟨j, p, hr, hj, hl⟩ := ha
-  obtain ⟨p', hl', _, _, _⟩ := h.lookup_some j y p hl
-  exact ⟨j, p', by rw [h.len, h.envResolve y, hr], hj, hl'⟩
+  obtain ⟨hn, j, hr, hcase⟩ := ha
+  refine ⟨hn, j, by rw [h.len, h.envResolve y, hr], ?_⟩
+  rcases hcase with ⟨hj, p, hl⟩ | ⟨outer, o, ob, p, hs, ho, hl, hna, hstr⟩
+  · obtain ⟨p', hl', _, _, _⟩ := h.lookup_some j y p hl
+    exact Or.inl ⟨hj, p', hl'⟩
+  · obtain ⟨ob', ho', he⟩ := h.obj_some o ob ho
+    obtain ⟨p', hl', _, _, _⟩ := erase_lookup_some he y p hl
+    refine Or.inr ⟨outer, o, ob', p', h.stash_obj j outer o hs, ho', hl', ?_, ?_⟩
+    · rw [erase_val he]; exact hna
+    · rw [erase_val he]; exact hstr
 
 /-- what the simulation needs of a state: the read-only invariant for the identifiers read, the current scope,
     no duplicate names in a stash, and the assigned identifiers are local bindings -/
@@ -295,11 +453,13 @@ structure LWInv (σ : FnM.St) (sc : FnM.Scope) (rest : List FnM.Scope) (xs ys : 
   ro : ROInv σ xs
   scp : σ.scopes = sc :: rest
   nd : StashNodup σ
+  ww : WritableWF σ
+  pd : ProtoDesc σ
   asg : ∀ y ∈ ys, Assignable σ sc y
 
 theorem LWInv.shape {σ σ' : FnM.St} {sc : FnM.Scope} {rest : List FnM.Scope} {xs ys : List String}
     (hI : LWInv σ sc rest xs ys) (h : Shape σ σ') : LWInv σ' sc rest xs ys :=
-  ⟨hI.ro.shape h, by rw [h.scopes]; exact hI.scp, hI.nd.shape h, fun y hy => (hI.asg y hy).shape h⟩
+  ⟨hI.ro.shape h, by rw [h.scopes]; exact hI.scp, hI.nd.shape h, hI.ww.shape h, hI.pd.shape h, fun y hy => (hI.asg y hy).shape h⟩
 
 /-- the outcome of an expression of the fragment: out of fuel, or the same value / the same error on both sides, in
     states that correspond again and have the shape of the initial one -/
@@ -372,6 +532,58 @@ theorem rtPutValue_dcl_run (σ : FnM.St) (j : Nat) (x : String) (v : Fn.V) (p : 
       have := map_erase_updateA x v p (FnM.dclProps σ j) hl
       simpa [hm] using this
 
+theorem map_eraseV_updateA (x : String) (v : Fn.V) (p : FnM.Pty) (hx : x ≠ "name") :
+    ∀ (ps : List (String × FnM.Pty)), Fn.lookupA x ps = some p →
+      (Fn.updateA x { p with value := v } ps).map (fun kp => (kp.1, eraseV kp.1 kp.2)) = ps.map (fun kp => (kp.1, eraseV kp.1 kp.2)) := by
+  intro ps
+  induction ps with
+  | nil => intro _; rfl
+  | cons q r ih =>
+    obtain ⟨k, w⟩ := q
+    intro hl
+    by_cases hk : k = x
+    · simp only [Fn.lookupA, hk, if_true, Option.some.injEq] at hl
+      subst hl
+      simp [Fn.updateA, hk, eraseV, hx]
+    · simp only [Fn.lookupA, hk, if_false] at hl
+      simp only [Fn.updateA, hk, if_false, List.map_cons, ih hl]
+
+theorem shape_setObj (σ : FnM.St) (a : Nat) (o o' : FnM.Obj) (ho : σ.obj? a = some o)
+    (he : eraseObj o' = eraseObj o) : Shape σ { σ with heap := Fn.setNth σ.heap a o' } := by
+  refine ⟨?_, rfl, rfl⟩
+  simp only [FnM.St.obj?] at ho
+  apply List.ext_getElem?
+  intro i
+  simp only [List.getElem?_map]
+  by_cases hia : i = a
+  · subst hia
+    have hlt : i < σ.heap.length := (List.getElem?_eq_some_iff.1 ho).1
+    rw [getElem?_setNth_self σ.heap i o' hlt, ho]
+    simp [he]
+  · rw [getElem?_setNth_ne σ.heap a i o' (fun h => hia h.symm)]
+
+/-- [[Put]] on an existing own property of an ordinary object: the value is replaced (or, read-only, nothing happens) -/
+theorem objPut_update_run (σ : FnM.St) (a : Nat) (x : String) (v : Fn.V) (ob : FnM.Obj) (p : FnM.Pty)
+    (ho : σ.obj? a = some ob) (hl : Fn.lookupA x ob.props = some p)
+    (hna : ∀ ipn st, ob.val ≠ .arguments ipn st) (hstr : ∀ s, ob.val ≠ .string s) (hx : x ≠ "name") :
+    ∃ σ', FnM.objPut a x v false σ = .ok () σ' ∧ Shape σ σ' := by
+  have hm : mapGetP σ ob x = none := mapGetP_none_of_not_args σ ob x hna
+  have hown : ownP σ a x = some p := by rw [ownP_of_unmapped σ a ob x ho hstr hm, hl]
+  have hcp : canPutP σ a x = (p.w, some p) := by simp [canPutP, hown]
+  unfold FnM.objPut
+  simp only [bind_run, canPutDetails_run, hcp]
+  cases hw : p.w with
+  | false => exact ⟨σ, by simp [FnM.typeErrorResult], Shape.refl σ⟩
+  | true =>
+    simp only [Bool.not_true, Bool.false_eq_true, if_false, bind_run]
+    have hd : ({ value := v, w := true, e := p.e, c := p.c } : FnM.Pty) = { p with value := v } := by
+      cases p; simp_all
+    rw [hd, defineOwnProperty_nonargs σ a ob x _ false ho hna,
+      odop_update σ a ob x { p with value := v } p false ho hl rfl rfl (Or.inr hw)]
+    refine ⟨_, rfl, shape_setObj σ a ob _ ho ?_⟩
+    simp only [eraseObj, FnM.Obj.mk.injEq, true_and, and_true]
+    exact map_eraseV_updateA x v p hx ob.props hl
+
 /-! ## the assignment to a local binding -/
 
 theorem evalE_var_run (n : Nat) (x : String) (sc : FnM.Scope) (rest : List FnM.Scope) (σ : FnM.St)
@@ -390,14 +602,11 @@ theorem lw_assign (n : Nat) (x : String) (e1 : Fn.FE) (sc : FnM.Scope) (rest : L
   cases n with
   | zero => left; simp [evalV, FnM.evalE, FnM.outOfFuel]
   | succ n =>
-    obtain ⟨j, p, hr, hj, hl⟩ := hI.asg x hy
+    obtain ⟨hxn, j, hr, hcase⟩ := hI.asg x hy
     have hvar := evalE_var_run n x sc rest σ hI.scp (hI.ro.vis x hx) hI.ro.wf0
-    have href : refOf σ x (some j) = .stash j x := by
-      simp only [refOf]
-      rcases dclProps_of_stash σ j x p hl with ⟨o, hs⟩ | ⟨o, ar, hs⟩ <;> simp [FnM.newReference, hs]
     have hm : evalV (n+2) (.assign x e1) σ =
         (match evalV (n+1) e1 σ with
-         | .ok v s1 => (match FnM.rtPutValue (.stash j x) v s1 with
+         | .ok v s1 => (match FnM.rtPutValue (refOf σ x (some j)) v s1 with
            | .ok _ s2 => .ok v s2
            | .throw t s2 => .throw t s2
            | .fuel => .fuel)
@@ -405,7 +614,7 @@ theorem lw_assign (n : Nat) (x : String) (e1 : Fn.FE) (sc : FnM.Scope) (rest : L
          | .fuel => .fuel) := by
       simp only [evalV]
       rw [FnM.evalE]
-      simp only [bind_run, hvar, hr, href]
+      simp only [bind_run, hvar, hr]
       cases FnM.evalE (n+1) e1 σ with
       | fuel => rfl
       | throw t s => rfl
@@ -416,7 +625,7 @@ theorem lw_assign (n : Nat) (x : String) (e1 : Fn.FE) (sc : FnM.Scope) (rest : L
         | throw t s1 => rfl
         | ok v s1 =>
           simp only []
-          cases FnM.rtPutValue (.stash j x) v s1 with
+          cases FnM.rtPutValue (refOf σ x (some j)) v s1 with
           | fuel => rfl
           | throw t s2 => rfl
           | ok u s2 => rfl
@@ -437,15 +646,40 @@ theorem lw_assign (n : Nat) (x : String) (e1 : Fn.FE) (sc : FnM.Scope) (rest : L
     rcases ih σ hI with h | ⟨v, σ1, h1, h1', hsh⟩ | ⟨nm, σ1, h1, h1', hsh⟩
     · left; rw [h]
     · have hI1 := hI.shape hsh
-      obtain ⟨p', hl', _, _, _⟩ := hsh.lookup_some j x p hl
-      obtain ⟨σ2, hrun, hsh2⟩ := rtPutValue_dcl_run σ1 j x v p' hl'
-      have hspec := putValue_dcl_spec σ1 j x v p' hj hI1.nd hl'
-      rw [hrun] at hspec
-      simp only [absR] at hspec
+      -- the put, in the state the right-hand side left: it keeps the shape and abstracts to ES5's PutValue
+      have hput : ∃ σ2, FnM.rtPutValue (refOf σ x (some j)) v σ1 = .ok () σ2 ∧ Shape σ1 σ2 ∧
+          Fn.putIdent (absSt σ1) (some j) x v = .ok () (absSt σ2) := by
+        rcases hcase with ⟨hj, p, hl⟩ | ⟨outer, o, ob, p, hst, ho, hl, hna, hstr⟩
+        · have href : refOf σ x (some j) = .stash j x := by
+            simp only [refOf]
+            rcases dclProps_of_stash σ j x p hl with ⟨o, hs⟩ | ⟨o, ar, hs⟩ <;> simp [FnM.newReference, hs]
+          obtain ⟨p', hl', _, _, _⟩ := hsh.lookup_some j x p hl
+          obtain ⟨σ2, hrun, hsh2⟩ := rtPutValue_dcl_run σ1 j x v p' hl'
+          have hspec := putValue_dcl_spec σ1 j x v p' hj hI1.nd hl'
+          rw [hrun] at hspec
+          simp only [absR] at hspec
+          exact ⟨σ2, by rw [href]; exact hrun, hsh2, hspec.symm⟩
+        · have href : refOf σ x (some j) = .prop (some o) x := by
+            simp only [refOf, newReference_obj σ j x outer o hst]
+          have hst1 := hsh.stash_obj j outer o hst
+          obtain ⟨ob', ho', he⟩ := hsh.obj_some o ob ho
+          obtain ⟨p', hl', _, _, _⟩ := erase_lookup_some he x p hl
+          have hna' : ∀ ipn st, ob'.val ≠ .arguments ipn st := by rw [erase_val he]; exact hna
+          have hstr' : ∀ s, ob'.val ≠ .string s := by rw [erase_val he]; exact hstr
+          obtain ⟨σ2, hrun, hsh2⟩ := objPut_update_run σ1 o x v ob' p' ho' hl' hna' hstr' hxn
+          have hrt : FnM.rtPutValue (.prop (some o) x) v σ1 = .ok () σ2 := by
+            simp only [FnM.rtPutValue, FnM.refPutValue, bind_run, hrun, pure_run]
+            rfl
+          have hspec := putValue_obj_spec σ1 j outer o x v hst1 hI1.ro.wf0 (hI1.ro.vis x hx) hI1.ww hI1.pd
+            (by intro ob1 ho1; rw [ho'] at ho1; cases ho1; exact hna')
+          rw [newReference_obj σ1 j x outer o hst1, hrt] at hspec
+          simp only [absR] at hspec
+          exact ⟨σ2, by rw [href]; exact hrt, hsh2, hspec.symm⟩
+      obtain ⟨σ2, hrun, hsh2, hspec⟩ := hput
       right; left
       refine ⟨v, σ2, ?_, ?_, hsh.trans hsh2⟩
       · rw [h1]; simp only [hrun]
-      · rw [h1']; simp only [← hspec]
+      · rw [h1']; simp only [hspec]
     · right; right
       refine ⟨nm, σ1, by rw [h1], ?_, hsh⟩
       rw [h1'] <;> rfl
